@@ -1,0 +1,22 @@
+//go:build verif
+
+// Contracts for the Badger access layer. Manager and transaction wrap
+// github.com/dgraph-io/badger/v3 directly, so these interface contracts are
+// TRUSTED (assumed): a durable byte-string map with atomic multi-key update.
+package badger
+
+//@ iface Provider.DB
+//@   trusted
+//@   ensures nonnil: result != nil
+
+//@ iface QueryManager.GetAll
+//@   trusted
+
+//@ iface QueryManager.Set
+//@   trusted
+
+//@ iface QueryManager.Get
+//@   trusted
+
+//@ iface QueryManager.Delete
+//@   trusted
